@@ -41,6 +41,10 @@ func checkC13(c *Ctx) {
 	c.Floor("READLINE-PREFIX", 2)
 	c.unreadBeforeRescan("UNREAD-RESCAN", c.Func("io/nexus", "Scanner", "Scan"), "Converting a tree between Newick, Nexus ... and back gives the same tree")
 	c.Floor("UNREAD-RESCAN", 1)
+	c.Decides("CLOSER-NOT-READ (go/cfg): a caller of the Nexus parser's consumeComment does not look at the token it hands back (the closing bracket) before a scan assigns the variable anew - otherwise the command that follows a comment is skipped as unknown")
+	if c.closerNotRead("CLOSER-NOT-READ", c.Func("io/nexus", "Parser", "consumeComment"), "Every tree of a multi-tree file is delivered in file order ... none is silently skipped") > 0 {
+		c.Floor("CLOSER-NOT-READ", 4)
+	}
 	c.Decides("FRESH-PER-ITER: the PhyloXML iterator creates the tree it hands to the callback inside its loop over the phylogenies (one object per record)")
 	c.freshPerIter("FRESH-PER-ITER", c.Func("io/phyloxml", "PhyloXML", "IterateTrees"), "Every tree of a multi-tree file is delivered in file order")
 	c.freshPerIter("FRESH-PER-ITER", c.Func("io/nextstrain", "Nextstrain", "IterateTrees"), "Every tree of a multi-tree file is delivered in file order")
